@@ -1,9 +1,112 @@
-(* C03 (placeholder while the proofs are being moved in) *)
-From Coq Require Import ZArith QArith Qcanon List Bool.
-From Catii Require Import Cube.Dim Cube.Direct Cube.FFuncs Cube.XCube Cube.AggCheck.
+(* C03 - index cube, array cube and direct group-by agree on the shared aggregates.
+
+   Models (definitions only): Cube/FFuncs.v = ffuncs.py + ccube.calculate (corner values as the code obtains
+   them, one write per walked coordinate, EVERY region differenced separately by marginal differencing,
+   margins cut, output_is_missing, division for the mean, the scalar-weight branch, the shared
+   (values, validity) normalisation with "multiply by the weights, THEN zero what is not valid");
+   Cube/XCube.v = xcubes.py/xfuncs.py (mintype, astype wrap, strides, narrow additions that wrap, bincount,
+   per-bin masks for several columns, the zero-dimension shape (1,) branch); Cube/Direct.v = the textbook
+   per-cell definition over the rows of the cell (exact rationals; NaN is never a number).
+   `h` is the stand-in the models use for the value of a NaN element; values under a False validity are
+   ordinary entries of the MPair value list: both are universally quantified.
+
+   Hypotheses and why real inputs satisfy them: 0 <= N is the row count; dim_wf = iindex.validate for a
+   one-axis dimension (checked on every real dimension by dim_wf_b); covers = every listed value and the
+   common lie in [0, extent) (otherwise IndexError / aliasing with the margin slot: outside the property);
+   agg_fact_ok = count is called without a fact variable, the others with one;
+   prod extents <= 2^32-1: beyond it xcube raises TypeError (modelled as None). *)
+From Coq Require Import ZArith QArith Qcanon List Bool Lia.
+From Catii Require Import Base.Sorted Cube.Dim Cube.Walk Cube.WalkProofs Cube.Region Cube.Count Cube.CountProofs
+     Cube.Direct Cube.FFuncs Cube.XCube Cube.AggBase Cube.AggCell Cube.FFuncsProofs Cube.XCubeProofs Cube.AggProofs
+     Cube.AggCheck.
 Import ListNotations.
 Open Scope Z_scope.
-Example C03_smoke : agg_check_any (mk ASum 3 [([(1, [0; 2])], 0)] [2] false [[1; 0; 1]] [2] false
-   (FOne (MNaN [Some (q 1 2); None; Some (q 3 1)])) WNone true FmtNaN
-   (OCells [None] [(1, [Some (q 7 2)])]) (OCells [None] [(1, [Some (q 7 2)])])) = true.
+
+(* ffunc_A_direct, A in count / valid_count / sum / mean; every fact form, weight form, policy: the index cube
+   returns, for every cell (row-major) and fact column, the textbook (value, missing) of the rows of that cell *)
+Theorem C03_ffunc_direct : forall A N dims shape h f w ign,
+  0 <= N -> Forall (dim_wf N) dims -> covers shape dims -> agg_fact_ok A f ->
+  ccube_agg N dims shape A h f w ign = direct A N (map dim_dense dims) shape f w ign.
+Proof. exact ccube_agg_direct. Qed.
+Print Assumptions C03_ffunc_direct.
+
+(* stride_bijection: the coordinate the array cube computes for a row - astype(mintype) with wrap, times the
+   product of the later extents, summed with narrow additions that wrap - is the mixed-radix flat index of the
+   row's cell and lies inside the cube: nothing wraps because prod ext <= max(mintype) *)
+Theorem C03_stride_bijection : forall N arrs shape, xhyps N arrs shape -> arrs <> [] ->
+  exists c, xcoords shape arrs = XCoords c /\
+            forall r, 0 <= r < N -> c r = flat shape (map (fun a => a r) arrs) /\ 0 <= c r < prodZ shape.
+Proof. exact stride_bijection. Qed.
+Print Assumptions C03_stride_bijection.
+Theorem C03_flat_index_enumerates : forall shape, Forall (fun e => 0 <= e) shape ->
+  map (flat shape) (all_cells shape) = zrange (prodZ shape).
+Proof. exact flat_all_cells. Qed.
+Print Assumptions C03_flat_index_enumerates.
+
+(* xfunc_A_direct: the array cube never raises on in-range data and returns the same textbook cells *)
+Theorem C03_xfunc_direct : forall A N arrs shape h f w ign,
+  xhyps N arrs shape -> agg_fact_ok A f ->
+  xcube_agg A N arrs shape h f w ign = Some (direct A N arrs shape f w ign).
+Proof. exact xcube_agg_direct. Qed.
+Print Assumptions C03_xfunc_direct.
+
+(* hidden_values_irrelevant: facts / weights that agree wherever they are valid (and any stand-ins for NaN)
+   give the same cubes *)
+Theorem C03_hidden_values_irrelevant_ccube : forall A N dims shape h h' f f' w w' ign,
+  0 <= N -> Forall (dim_wf N) dims -> covers shape dims -> agg_fact_ok A f -> agg_fact_ok A f' ->
+  fact_equiv f f' -> weights_equiv w w' ->
+  ccube_agg N dims shape A h f w ign = ccube_agg N dims shape A h' f' w' ign.
+Proof. exact hidden_values_irrelevant_ccube. Qed.
+Print Assumptions C03_hidden_values_irrelevant_ccube.
+Theorem C03_hidden_values_irrelevant_xcube : forall A N arrs shape h h' f f' w w' ign,
+  xhyps N arrs shape -> agg_fact_ok A f -> agg_fact_ok A f' -> fact_equiv f f' -> weights_equiv w w' ->
+  xcube_agg A N arrs shape h f w ign = xcube_agg A N arrs shape h' f' w' ign.
+Proof. exact hidden_values_irrelevant_xcube. Qed.
+Print Assumptions C03_hidden_values_irrelevant_xcube.
+Theorem C03_hidden_pair : forall v v' b,
+  (forall r, znth r b false = true -> znth r v q0 = znth r v' q0) -> col_equiv (m_get (MPair v b)) (m_get (MPair v' b)).
+Proof. exact mpair_hidden_equiv. Qed.
+Print Assumptions C03_hidden_pair.
+
+(* C03: index cube = array cube on the equivalent dense arrays = direct group-by; same values, same missing cells *)
+Theorem C03_agree : forall A N dims shape arrs h f w ign,
+  0 <= N -> Forall (dim_wf N) dims -> covers shape dims -> prodZ shape <= 4294967295 -> agg_fact_ok A f ->
+  Forall2 (fun a d => same_on N a (dim_dense d)) arrs dims ->
+  ccube_agg N dims shape A h f w ign = direct A N (map dim_dense dims) shape f w ign
+  /\ xcube_agg A N arrs shape h f w ign = Some (direct A N (map dim_dense dims) shape f w ign)
+  /\ xcube_agg A N arrs shape h f w ign = Some (ccube_agg N dims shape A h f w ign).
+Proof. exact AggProofs.C03_agree. Qed.
+Print Assumptions C03_agree.
+
+(* ---- the hypotheses are satisfiable on a non-trivial input: 2 dimensions, 5 rows, commons 0 and 1, a fact with
+        2 columns given as NaN-marked and as (values, validity) with a hidden value, array weights with a zero
+        and a missing weight ---- *)
+Definition ex_dims : list dim := [mkdim ([(1, [0; 2; 4])], 0); mkdim ([(2, [2]); (0, [1; 3])], 1)].
+Definition ex_arrs : list (Z -> Z) := [arr_cat [1; 0; 1; 0; 1]; arr_cat [1; 0; 2; 0; 1]].
+Definition ex_fact : fact :=
+  FCols [MNaN [Some (q 1 2); Some (q 3 1); None; Some (q (-2) 1); Some (q 5 4)];
+         MPair [q 1 1; q 777 1; q 2 1; q 4 1; q 6 1] [true; false; true; true; true]].
+Definition ex_w : weights := WArr (MNaN [Some (q 1 1); Some (q 2 1); Some (q 0 1); None; Some (q 1 2)]).
+
+Example C03_hypotheses_hold :
+  0 <= 5 /\ Forall (dim_wf 5) ex_dims /\ covers [2; 3] ex_dims /\ prodZ [2; 3] <= 4294967295
+  /\ agg_fact_ok AMean ex_fact /\ Forall2 (fun a d => same_on 5 a (dim_dense d)) ex_arrs ex_dims.
+Proof.
+  split; [lia|]. split; [apply forall_dim_wf_b_sound; vm_compute; reflexivity|].
+  split; [apply covers_b_sound; vm_compute; reflexivity|]. split; [vm_compute; discriminate|].
+  split; [discriminate|].
+  repeat constructor; intros r Hr;
+    assert (E : r = 0 \/ r = 1 \/ r = 2 \/ r = 3 \/ r = 4) by lia;
+    destruct E as [->|[->|[->|[->| ->]]]]; vm_compute; reflexivity.
+Qed.
+(* the mean over that cube, propagating missing values: cell (0,0) holds rows 1 and 3 - column 0 is missing because
+   row 3 has a missing weight, column 1 because row 1 is invalid; (1,1) is a RECONSTRUCTED cell (both commons) *)
+Example C03_nontrivial :
+  cells_eqb (ccube_agg 5 ex_dims [2; 3] AMean h_eval ex_fact ex_w false)
+    [[(q 3 1, true); (q0, true)]; [(q0, true); (q0, true)]; [(q0, true); (q0, true)];
+     [(q0, true); (q0, true)]; [(q 3 4, false); (q 8 3, false)]; [(q0, true); (q0, true)]] = true.
+Proof. vm_compute. reflexivity. Qed.
+Example C03_nontrivial_x :
+  ocells_eqb (xcube_agg AMean 5 ex_arrs [2; 3] h_eval ex_fact ex_w false)
+             (Some (ccube_agg 5 ex_dims [2; 3] AMean h_eval ex_fact ex_w false)) = true.
 Proof. vm_compute. reflexivity. Qed.
